@@ -5,11 +5,31 @@ HERE = os.path.dirname(os.path.dirname(os.path.abspath(__file__)))
 PROPS = [json.loads(l)["id"] for l in open(os.path.join(HERE, "properties.jsonl"))]
 
 CLAIMED = {
+ "C03": dict(
+   technique="Coq proof: hand model of SimpleTypeChecker's rules proved sound and complete against declarative sorting rules (case analysis over every operator, all widths/payloads/arities) + exhaustive model/implementation correspondence at the create_node level + independent type derivation as oracle on constructor outputs",
+   text="coq/props/C03.v: for every operator and every argument-sort tuple, the modelled checker accepts exactly what the declarative rules of core/Types.v accept (under the arity/width-payload shape the constructors establish and first-order argument sorts), with the same unique type; lifted bottom-up to formulas of any depth. The model is compared with type_checker.py on ~46k (operator, payload, sorts) tuples per run; every public constructor is called on every sort combination and its result re-typed by an independent derivation.",
+   note="Trusted: Coq kernel, core/Types.v (specification), ctor_shape (what Python signatures and bv_width() computations guarantee), hand model tied by correspondence, harness/refeval.py type_of. Function-typed symbols accepted as arguments are a recorded open finding (tc_sound_refuted_function_argument).",
+   design="4 C03"),
+ "C12": dict(
+   technique="Coq proof by structural induction over terms (free symbols = textbook definition; coincidence lemma against the semantic domain; atoms truth-functionality; qf-ness; size definitions) + model/implementation correspondence on generated formulas + independent recursive definitions as oracle",
+   text="coq/props/C12.v: for every term, the modelled free-symbol set equals the declarative definition and the term's value (core/Sem.v) depends only on those symbols; the truth value of a quantifier-free Boolean term is a function of the values of the reported atoms; is_qf iff no quantifier node; tree size/leaves/depth against independent definitions. Models of all five oracles are compared with pysmt/oracles.py as sets/numbers on generated formulas of all theories.",
+   note="Trusted: Coq kernel, core/Sem.v (semantic specification; classical + real-number axioms of the standard library as reported by Print Assumptions), hand model tied by correspondence, tocoq.py. No declarative theorem yet for the sort set (correspondence + oracle only).",
+   design="4 C12"),
  "C13": dict(
    technique="Coq proof over definitions regenerated from logics.py (complete enumeration of the 1728 well-formed theories and the named tables by vm_compute; generic induction for logic selection) + model/implementation correspondence",
-   text="Theorems in coq/props/C13.v, re-checked on every run against gen/Logics.v, which a fail-closed translator regenerates from pysmt/logics.py: Theory.__le__ is a partial order and combine an upper bound on all well-formed theories; Logic.__le__ is a partial order on the named tables; get_closer_logic/most_generic_logic (hand model, correspondence-checked) return a supported logic above the target with none strictly between, for every admissible supported list. Detection (TheoryOracle) is covered by the model in models/TheoryOracle.v when present.",
-   note="Trusted: Coq kernel + vm_compute, the Python-ast translator (validated against the implementation on sampled inputs each run), the hand model of the selection functions (correspondence). Well-formedness of theories is a hypothesis (combine is not an upper bound otherwise).",
+   text="Theorems in coq/props/C13.v, re-checked on every run against gen/Logics.v, which a fail-closed translator regenerates from pysmt/logics.py: Theory.__le__ is a partial order and combine an upper bound on all well-formed theories; Logic.__le__ is a partial order on the named tables; get_closer_logic/most_generic_logic (hand model, correspondence-checked) return a supported logic above the target with none strictly between, for every admissible supported list. Detection (TheoryOracle/get_logic) is modelled in models/TheoryOracle.v, correspondence-checked on generated formulas, and checked against an independent feature extraction.",
+   note="Trusted: Coq kernel + vm_compute, the Python-ast translator (validated against the implementation on sampled inputs each run), the hand models (correspondence). Well-formedness of theories is a hypothesis (combine is not an upper bound otherwise). The detection clause has no Coq theorem yet (model + correspondence + oracle).",
    design="4 C13"),
+ "C18": dict(
+   technique="Coq proof over a hand model of optimizer.py (search interval, _optimize loop, boxed/lexicographic/pareto drivers, SUA and incremental mixins over the tracking solver's stack) for every sound and complete oracle (Section variable), plus trace-based model/implementation correspondence over a brute-force solver and an enumeration oracle",
+   text="Theorems in coq/props/C18.v: for every satisfiable assertion set with attained optimum, Int / signed / unsigned BV / MaxSMT (integer weights) objectives, linear and binary search, SUA and push/pop mixins, optimize terminates (explicit fuel bound) with a model of the assertions whose value is the optimum, reports no solution iff unsat, and restores assertions and backtrack points; boxed exact; lexicographic optimum exact; Pareto front sound/complete/duplicate-free whenever the run ends; MinMax/MaxMin term = max/min of components.",
+   note="Trusted: Coq kernel, oracle hypotheses solve_sound/solve_complete, BV value range, the hand model tied by full-trace correspondence each run, the harness evaluator. Pareto termination is a premise; Real objectives, unknown strategies and solver exceptions not modelled; mixed-theory objective terms raise KeyError (open finding).",
+   design="4 C18"),
+ "C19": dict(
+   technique="Coq proof over a labelled-transition-system model of portfolio.py (invariants by induction on the schedule, all configurations and schedules; deadlock-freedom plus a strictly decreasing measure) + model/implementation correspondence on the real Portfolio with fault-injecting member processes under a watchdog, the model's outcome set computed per configuration by exhaustive exploration in vm_compute",
+   text="PARTIAL by nature. Theorems in coq/props/C19.v over all schedules of the modelled events: the returned verdict is an answering member's (hence the agreed one); failures never become errors unless exit_on_exception; queries are served by the surviving winner; no reachable deadlock and termination while one member answers; 'all members fail -> error' is refuted (the parent blocks, for every schedule) with the partial version for exit_on_exception plus a raising member.",
+   note="Cannot exhibit OS scheduling, SIGTERM latency (approximated by a flag; liveness needs latency=false) or multiprocessing stream corruption on terminate(); hand model tied by correspondence (154+ scenarios per run under a watchdog); three open findings (blocking when all members fail; shared control pipe).",
+   design="4 C19"),
 }
 NOT_YET = "machinery for this property is not built yet (work in progress, see DESIGN.md section 8)"
 
